@@ -338,3 +338,34 @@ func VerifC06_ServeThorough() { vC06Serve(3) }
 // larger configurations, explored delay-bounded (see check spec)
 func VerifC06_Serve4() { vC06Serve(4) }
 func VerifC06_Serve5() { vC06Serve(5) }
+
+// A version request arriving in the middle of an established session is a
+// request like any other for the serve loop: it is answered (here with the
+// handler's error), and the requests outstanding at that moment - which were not
+// flushed - still receive exactly their own replies.
+func VerifC06_VersionMidSession() {
+	s := newVSrv(2)
+	t1, t2, tv := Tag(ndU16("tag1")), Tag(ndU16("tag2")), Tag(ndU16("tagV"))
+	vAssume(vAnd(t1 != t2, vAnd(tv != t1, tv != t2)))
+	p1, p2 := ndU32("pay1"), ndU32("pay2")
+	s.ch.fromPeer <- vReq(0, t1, ndU64("m1"))
+	<-s.h.started
+	s.ch.fromPeer <- vReq(1, t2, ndU64("m2"))
+	<-s.h.started
+	s.ch.fromPeer <- &Fcall{Type: Tversion, Tag: tv, Message: MessageTversion{MSize: ndU32("msize"), Version: "9P2000"}}
+	r := <-s.ch.toPeer
+	vAssert(r.Tag == tv, "C06: the reply carries the request's tag (version request)")
+	vAssert(s.h.ctxs[0].Err() == nil && s.h.ctxs[1].Err() == nil, "C06: a request that was not flushed is not disturbed by other requests")
+	s.h.release[0] <- vResFor(0, p1, "")
+	s.h.release[1] <- vResFor(0, p2, "")
+	for i := 0; i < 2; i++ {
+		r := <-s.ch.toPeer // a reply that never comes is reported as a deadlock
+		if r.Tag == t1 {
+			vCheckResp(r, t1, 0, p1, "", "first request")
+		} else {
+			vCheckResp(r, t2, 0, p2, "", "second request")
+		}
+	}
+	s.vNoMoreReplies("C06: each request receives exactly one reply")
+	vReach("c06.versionmid")
+}
